@@ -106,3 +106,27 @@ def run_binding(rep, work):
     rep.case(n)
     rep.extra["ctrait_handler_configurations"] = n
     return n
+
+
+def run_binding_isolated(rep, work):
+    """run_binding in a forked child: on an unrepaired handler table the API calls crash the interpreter"""
+    from ..core import run_isolated, Report
+
+    def tables():
+        sub = Report(rep.pid, rep.tier, rep.seed, level=rep.level)
+        run_binding(sub, work)
+        return sub.tlc_runs, sub.states, sub.transitions, sub.impl, sub.violations, dict(sub.extra)
+    status, r = run_isolated(tables)
+    if status == "crash":
+        rep.violation("%s:crash:handler-tables" % rep.pid, "the interpreter crashed (%s) while pickling / copying trait "
+                      "definition objects of the handler configurations of CTraitTables.tla" % r, {"how": r})
+    elif status != "ok":
+        raise MachineryError("handler tables: %s" % r)
+    else:
+        rep.tlc_runs += r[0]
+        rep.states += r[1]
+        rep.transitions += r[2]
+        rep.case(r[3])
+        for sig, text, path in r[4]:
+            rep.violation(sig, text, path=path)
+        rep.extra.update(r[5])
